@@ -358,10 +358,16 @@ class _Run:
 
     def _request_source(self, c: _Call):
         t = self.tape
-        k = t.draw(3, "src-kind")
+        k = t.draw(6, "src-kind")
         run = self
         if k == 0:
             return list(c.reqs), "list", None
+        if k == 3:
+            return tuple(c.reqs), "tuple", None
+        if k == 4:
+            return (m for m in c.reqs), "generator", None       # a lazy synchronous iterable
+        if k == 5:
+            return iter(list(c.reqs)), "iterator", None
         if k == 1:
             async def agen():
                 for m in c.reqs:
@@ -755,12 +761,12 @@ class GrpcSim(Simulator):
     crash_rule = "C11.H2"
     rules = RULES
     recursion_headroom = 900
-    generation_rule = ("Code is generated at check time by the working tree's plugin for a frozen corpus (2 own proto trees: "
+    generation_rule = ("Code is generated at check time by the working tree's plugin for a frozen corpus (3 own proto trees: "
                        "all four cardinalities, names needing re-casing, same method names in two services, same service "
-                       "name in two packages, cross-package and well-known request/response types; 10 service cases of "
+                       "name in two packages, two files sharing one package, cross-package and well-known request/response types; 10 service cases of "
                        "/repo/tests/inputs). Each run draws a case, which methods the server overrides, 1-4 client tasks x "
                        "1-3 calls multiplexed on one channel, request values (occasionally > 64 KiB), request-stream length "
-                       "0-4 and source kind (list / async generator / AsyncChannel fed by another task), the eight-way "
+                       "0-4 and source kind (list / tuple / generator / iterator / async generator / AsyncChannel fed by another task), the eight-way "
                        "stub-level x call-level timeout/deadline/metadata choice, handler and client pauses, and per "
                        "transport write a latency and a TCP re-segmentation.")
     nontrivial_rule = "at least two calls were issued, or a streaming call."
